@@ -5,8 +5,11 @@ package fstree
 // the file-system stub; file contents are arbitrary).
 
 import (
+	"errors"
+
 	"github.com/safing/portbase/database/query"
 	"github.com/safing/portbase/database/record"
+	"github.com/safing/portbase/database/storage"
 	rt "github.com/safing/portbase/zz_verifrt"
 )
 
@@ -164,4 +167,38 @@ func VerifC03_FstreeProtectedRecords() {
 		}
 	}
 	rt.Reach("fstreeperm-end")
+}
+
+// get / exists on keys that are not stored - among them keys that name a
+// directory of the tree or run through a record's file: not found, as with a
+// plain map (the stored key set is prefix-free at segment boundaries; the key
+// asked for need not be)
+func VerifC02_FstreeGetMissingKeys() {
+	root := rt.Root("/r/db")
+	fst := &FSTree{name: "t", basePath: root}
+	files := []string{"a/b", "c"}
+	rt.WalkEntry(root, true)
+	rt.WalkEntry(root+"/a", true)
+	for _, f := range files {
+		rt.WalkEntry(root+"/"+f, false)
+		w, _ := record.NewWrapper("t:"+f, &record.Meta{}, 'J', []byte("{}"))
+		w.UpdateMeta()
+		data, err := w.MarshalRecord(w)
+		if err != nil {
+			rt.Assert(false, "fstreeget/setup")
+			return
+		}
+		rt.FsFile(root+"/"+f, data)
+	}
+	rt.FsFaults(0)
+	rt.FsStatFromWalk(true)
+	key := []string{"a/b", "c", "a", "a/b/c", "c/d", "x", "a/x"}[rt.Choice("key", 7)]
+	stored := key == "a/b" || key == "c"
+	r, err := fst.Get(key)
+	if stored {
+		rt.Assert(err == nil && r != nil, "fstreeget/stored-key-found")
+	} else {
+		rt.Assert(errors.Is(err, storage.ErrNotFound), "fstreeget/key-that-is-not-stored-is-not-found")
+	}
+	rt.Reach("fstreeget-end")
 }
